@@ -306,6 +306,14 @@ func specChunk(c *h.Ctx, trS string) specRep {
 func implRead(c *h.Ctx, wire []byte, mode, max int) (string, string, uint32) {
 	rd := &h.SegReader{Data: wire, R: c.R.Fork(), Mode: mode}
 	pr := rtmp.NewProtocol(&h.RW{Reader: rd, Writer: &bytes.Buffer{}})
+	if c.R.Chance(40) {
+		// the reading endpoint has itself announced a chunk size for what IT sends (and sent something): that concerns
+		// its output only; how it reads the peer's stream is governed by what the peer announces
+		sc := rtmp.NewSetChunkSize()
+		sc.ChunkSize = uint32(c.R.Pick(1, 64, 200, 4096, 65536))
+		pr.WritePacket(sc, 0)
+		pr.WriteMessage(rtmp.VerifNewMessage(5, 9, 1, 0, make([]byte, 300)))
+	}
 	got, status := readAllMsgs(pr, max)
 	in, _ := rtmp.VerifChunkSizes(pr)
 	return joinMsgs(got), status, in
